@@ -108,9 +108,11 @@ theorem C07_iter (bytes : List UInt8) (hp : (parse bytes).fail = none) (n : Nat)
     sem (parse (fmtN n (fmtB bytes))).tree = sem (parse bytes).tree := by
   rw [fmtN_tree bytes hp n]; exact ⟨rfl, sem_norm _⟩
 
+/-- the example text parses (evaluated by the kernel), so the hypothesis of the iterated statements is met by it -/
+theorem exText_parses : (parse (flat (format Fmt.exTree))).fail = none := by decide +kernel
+
 /-- non-vacuity of the iterated statement: three formattings of the example tree's text -/
-example : (parse (flat (format Fmt.exTree))).fail = none →
-    sem (parse (fmtN 2 (fmtB (flat (format Fmt.exTree))))).tree = sem (parse (flat (format Fmt.exTree))).tree :=
-  fun h => (C07_iter _ h 2).2
+example : sem (parse (fmtN 2 (fmtB (flat (format Fmt.exTree))))).tree = sem (parse (flat (format Fmt.exTree))).tree :=
+  (C07_iter _ exText_parses 2).2
 
 end Spok.Props.C07
